@@ -216,3 +216,42 @@ let rec show_pv (v : pv) : String.t =
   | PHex l -> "x" ^ hex_of_bytes l
   | PAugDict (l, ex) -> "<aug>"
   | PDerived -> "?"
+
+(* ---- messages (C15) ---- *)
+let bar s = String.split_on_char '|' s
+let parse_ec (s : String.t) : (z * z) list =
+  if s = "-" then [] else
+    List.map (fun kv -> match String.split_on_char '=' kv with [k; v] -> (z_of_hex k, z_of_hex v) | _ -> failwith "ec")
+      (String.split_on_char ',' s)
+let parse_info (t : String.t) : msg_info =
+  match bar t with
+  | ["int"; fl; src; dst; g; ec; ihr; fwd; lt; at_] ->
+    IntInfo (fl.[0] = '1', fl.[1] = '1', fl.[2] = '1', parse_addr (colon src), parse_addr (colon dst), z_of_hex g,
+             parse_ec ec, z_of_hex ihr, z_of_hex fwd, z_of_hex lt, z_of_hex at_)
+  | ["extin"; src; dst; fee] -> ExtInInfo (parse_addr (colon src), parse_addr (colon dst), z_of_hex fee)
+  | ["extout"; src; dst; lt; at_] -> ExtOutInfo (parse_addr (colon src), parse_addr (colon dst), z_of_hex lt, z_of_hex at_)
+  | _ -> failwith "info"
+let show_ec ec = if ec = [] then "-" else String.concat "," (List.map (fun (k, v) -> hex_of_z k ^ "=" ^ hex_of_z v) ec)
+let b01 b = if b then "1" else "0"
+let show_info = function
+  | IntInfo (d, b, bd, src, dst, g, ec, ihr, fwd, lt, at_) ->
+    String.concat "|" ["int"; b01 d ^ b01 b ^ b01 bd; show_addr src; show_addr dst; hex_of_z g; show_ec ec; hex_of_z ihr;
+                       hex_of_z fwd; hex_of_z lt; hex_of_z at_]
+  | ExtInInfo (src, dst, fee) -> String.concat "|" ["extin"; show_addr src; show_addr dst; hex_of_z fee]
+  | ExtOutInfo (src, dst, lt, at_) -> String.concat "|" ["extout"; show_addr src; show_addr dst; hex_of_z lt; hex_of_z at_]
+let parse_init (trees : cell array) (t : String.t) : state_init option =
+  if t = "-" then None else
+    match bar t with
+    | [sd; sp; co; da; li] ->
+      let oc x = if x = "-" then None else Some trees.(int_of_string x) in
+      Some { si_split_depth = (if sd = "-" then None else Some (z_of_hex sd));
+             si_special = (if sp = "-" then None else Some (sp.[0] = '1', sp.[1] = '1'));
+             si_code = oc co; si_data = oc da; si_library = oc li }
+    | _ -> failwith "init"
+let show_init = function
+  | None -> "-"
+  | Some si ->
+    let oc = function None -> "-" | Some c -> cell_text c in
+    String.concat "|" [(match si.si_split_depth with None -> "-" | Some d -> hex_of_z d);
+                       (match si.si_special with None -> "-" | Some (a, b) -> b01 a ^ b01 b);
+                       oc si.si_code; oc si.si_data; oc si.si_library]
